@@ -15,6 +15,7 @@ import time
 from typing import Any, Dict, List
 
 from .. import core_check, gen, report
+from ..core_check import budget_collect
 from . import c08
 from .core import NPROC, _size
 
@@ -30,6 +31,11 @@ def _core_unit(a):
 
 def _sched_unit(a):
     return c08.unit(a)
+
+
+def _kind_unit(ka):
+    k, a = ka
+    return (k, (_core_unit if k == "core" else _sched_unit)(a))
 
 
 def run(prop: str, tier: str, seed: int) -> int:
@@ -61,8 +67,8 @@ def run(prop: str, tier: str, seed: int) -> int:
     import concurrent.futures as cf
 
     with cf.ProcessPoolExecutor(max_workers=NPROC) as ex:
-        futs = [ex.submit(_core_unit if k == "core" else _sched_unit, a) for k, a in units]
-        results = [(units[i][0], f.result()) for i, f in enumerate(futs)]
+        futs = [ex.submit(_kind_unit, ka) for ka in units]
+        results = budget_collect(futs)
     cov: Dict[str, Any] = {"states": 0, "transitions": 0, "core_edges_replayed": 0, "sched_edges_replayed": 0,
                            "divergences": 0, "machines": 0, "samples": []}
     violations, errors, nontrivial = [], [], 0
